@@ -23,6 +23,13 @@ of the derived scene - recomputed from its RAW graph records and geometry arrays
 any scene read - must be the source placements scaled / moved accordingly, its own cached reads
 must agree, and a deep snapshot of the source (array bytes, raw graph records) must not change.
 
+Regimes (set per scenario, see `regime()`): exact float64 matrices and coordinates of order 1 (absolute
+1e-6 x size); `lowprec` - rotation factors of rigid / similarity edges as a float32 or six-decimal source
+delivers them (judged at the documented repair_rigid = 1e-5 x size: re-orthogonalising a rigid world matrix is
+allowed, losing the scale of a similarity is not); `small` - vertices and translations in a unit of 1e-9, so
+that world / edge matrices within 1e-8 of the identity occur (tolerance relative to the coordinates: an
+absolute `is identity` shortcut is then an error of several times the size of the geometry).
+
 Not judged (statement silent): scenes whose geometry frames are not connected to the base
 frame; triangles / to_mesh / convex_hull of a scene without any triangle / vertex (may refuse);
 the instance at the root of a subscene; geometry kept in `scene.geometry` without any frame;
@@ -49,7 +56,10 @@ RULE = (
     "Path2D instanced 0 / 1 / many times; a fixed battery (kind x edge class x depth x instancing) plus "
     "random scenes; each scene: reads, 0-4 edits (edge update, re-parent, leaf removal, new instance, new "
     "geometry, delete_geometry, in-place vertex writes, geometry transform / replacement) with reads after "
-    "each, then every derived-scene operation. A case is one (scene, edits, derived op) execution; distinct = "
+    "each, then every derived-scene operation (incl. a copy that is edited afterwards). Two more regimes of the "
+    "same scenes: `lowprec` (rotation factors of rigid / similarity edges in single precision or six decimals, judged "
+    "at the documented repair_rigid = 1e-5 x size) and `small` (vertices and translations in a unit of 1e-9, "
+    "translation-only edges frequent, Trimesh / PointCloud / Path3D, tolerance relative to the coordinates). A case is one (scene, edits, derived op) execution; distinct = "
     "distinct (forest shape, kinds per frame, edge classes, edit kinds, operation, option class); non-trivial "
     "= the scene has at least one placed instance whose world matrix is not the identity."
 )
@@ -90,6 +100,9 @@ ASSUMPTIONS = [
     "the reference forest of C09 gives the world matrix of a frame (product of the current edges)",
     "scipy.spatial.ConvexHull is used as the reference hull of the placed points",
     "Scene.centroid is the centre of the bounding box (as documented), not a mass centroid",
+    "SceneGraph(repair_rigid=1e-5) may move a world matrix that is rigid to within 1e-5 by up to 1e-5 per entry "
+    "(low-precision regime only); in the small-unit regime convex_hull / center_mass / moment_inertia are not judged "
+    "(qhull and the mass properties of a bare mesh of size 1e-9 have absolute thresholds of their own)",
     "the raw records of a derived scene (parents, edge_data[(parent, child)]['matrix'], node_data geometry, "
     "geometry arrays) define its placements; no scene read of the derived scene is trusted for that",
 ]
@@ -591,7 +604,16 @@ def regime_battery_specs():
         M[:3, :3] *= k
         return M
 
-    for precision, (s1, s2, s3) in itertools.product(("float32", "decimal6"), ((2.5, 0.4, 3.0), (1.0, 1.0, 1.0), (2.0, 0.5, 1.25))):
+    combos = list(itertools.product(("float32", "decimal6"), ((2.5, 0.4, 3.0), (1.0, 1.0, 1.0), (2.0, 0.5, 1.25))))
+    # exact similarity edges whose scale is close to 1 (s^2 - 1 >= 1e-3, 100 x the repair_rigid threshold)
+    combos.append((None, (1.0005, 0.999, 1.004)))
+    for precision, (s1, s2, s3) in combos:
+        if precision is None:
+            frames = [("rig", None, scaled_by(A1, s1), None), ("box_a", "rig", Tr.copy(), "g0"),
+                      ("ball_a", "rig", scaled_by(A2, s2), "g1"), ("box_b", None, scaled_by(A3, s3), "g0")]
+            out.append(("battery:scale_near_one", {"geoms": {"g0": fixed_geom("mesh"), "g1": fixed_geom("cloud")},
+                                                   "frames": frames, "unplaced": [], "unit": 1.0, "regime": None}))
+            continue
         frames = [
             ("rig", None, degrade(scaled_by(A1, s1), precision), None),
             ("box_a", "rig", Tr.copy(), "g0"),
@@ -1049,6 +1071,15 @@ def apply_edit(run, rng, pyrng, scene, sm, kind, serial):
         scene.graph.update(n, f.parent[n], matrix=M.copy())
         f.update(n, f.parent[n], M)
         return {"edit": kind, "node": n, "matrix": M.tolist()}
+    if kind == "edge_nudge":
+        # the current edge matrix with its translation moved by a few units of the scene
+        if not nonroot:
+            return None
+        n = pyrng.choice(nonroot)
+        M = f.matrix[n].copy()
+        M[:3, 3] += np.array([3.0, -1.0, 2.0]) * sm.unit
+        _nudge(scene, f, n, M)
+        return {"edit": kind, "node": n, "matrix": M.tolist()}
     if kind == "reparent":
         cands = [(n, p) for n in nonroot for p in f.nodes if p != f.parent[n] and not f.would_cycle(n, p) and f.depth(p) < 4
                  and f.world(p) is not None]
@@ -1173,12 +1204,23 @@ def apply_edit(run, rng, pyrng, scene, sm, kind, serial):
     raise KeyError(kind)
 
 
+def _nudge(scene, f, n, M):
+    # the frame is re-stated completely (matrix and, when it carries one, its geometry)
+    if n in f.geometry:
+        scene.graph.update(n, f.parent[n], matrix=M.copy(), geometry=f.geometry[n])
+    else:
+        scene.graph.update(n, f.parent[n], matrix=M.copy())
+    f.update(n, f.parent[n], M)
+
+
 def replay_edit(scene, sm, rec):
     """Re-apply a recorded edit exactly."""
     f = sm.forest
     k = rec["edit"]
     M = np.array(rec["matrix"], dtype=np.float64) if "matrix" in rec else None
-    if k == "edge_update":
+    if k == "edge_nudge":
+        _nudge(scene, f, rec["node"], M)
+    elif k == "edge_update":
         scene.graph.update(rec["node"], f.parent[rec["node"]], matrix=M.copy())
         f.update(rec["node"], f.parent[rec["node"]], M)
     elif k == "reparent":
@@ -1261,7 +1303,7 @@ def snapshot_diff(a, b):
 
 
 def raw_placements(D):
-    return [(k, P, F) for k, P, F, W, V in raw_placements_full(D)]
+    return [a[:3] for a in raw_placements_full(D)]
 
 
 def raw_placements_full(D):
@@ -1290,8 +1332,28 @@ def raw_placements_full(D):
         if V.shape[1] == 2:
             V = np.column_stack([V, np.zeros(len(V))])
         kind = "mesh" if hasattr(geom, "faces") else ("path" if hasattr(geom, "entities") else "cloud")
-        out.append((kind, V @ W[:3, :3].T + W[:3, 3], np.asarray(geom.faces) if kind == "mesh" else None, W, V))
+        out.append((kind, V @ W[:3, :3].T + W[:3, 3], np.asarray(geom.faces) if kind == "mesh" else None, W, V, n, f))
     return out
+
+
+def derived_graph_drops_near_identity(D, full):
+    """
+    The derived scene's own graph answers differently from the product of its raw edge records, and leaving
+    the near-identity factors out of every 2+ edge path explains every answer (the mechanism keyed
+    `graph_world_transform=differs_from_forest sym=near_identity_edge_dropped_from_path` on a built scene).
+    """
+    differs = False
+    for a in full:
+        W, n, f = a[3], a[5], a[6]
+        try:
+            M = np.asarray(D.graph.get(n)[0], dtype=np.float64)
+        except Exception:
+            return False
+        if worlds_differ(M, W):
+            differs = True
+            if worlds_differ(M, world_skipping_near_identity(f, n)):
+                return False
+    return differs
 
 
 def match_placements(expected, actual, scale):
@@ -1639,7 +1701,10 @@ def run_derived(run, scene, sm, op, cls, par, case, worlds):
             rb = D.bounds
             if rb is None or not close(wb, rb, S):
                 bad += 1
-                run.violation(("derived=%s sym=not_preserved%s" % (opkey, cause)) if cause else "derived=%s sym=derived_read_wrong read=bounds" % opkey,
+                dkey = "derived=%s sym=derived_read_wrong read=bounds" % opkey
+                if sm.regime == "small" and derived_graph_drops_near_identity(D, full):
+                    dkey = "graph_world_transform=differs_from_forest sym=near_identity_edge_dropped_from_path"
+                run.violation(("derived=%s sym=not_preserved%s" % (opkey, cause)) if cause else dkey,
                               "bounds of the derived scene disagree with its own raw placements",
                               dict(case, op=op, option=cls, params=par, observed=rb, expected=wb))
         tris = [a[1][a[2]] for a in actual if a[0] == "mesh"]
@@ -1649,7 +1714,9 @@ def run_derived(run, scene, sm, op, cls, par, case, worlds):
             if not same_point_multiset(wt, rt, S):
                 bad += 1
                 dkey = "derived=%s sym=derived_read_wrong read=triangles" % opkey
-                if any(near_identity(a[3]) for a in full):
+                if sm.regime == "small" and derived_graph_drops_near_identity(D, full):
+                    dkey = "graph_world_transform=differs_from_forest sym=near_identity_edge_dropped_from_path"
+                elif any(near_identity(a[3]) for a in full):
                     # the read of the derived scene, not the operation: same mechanism as read=triangles
                     alt = [(a[4] if near_identity(a[3]) else a[1])[a[2]] for a in full if a[0] == "mesh"]
                     if rt.shape == wt.shape and same_point_multiset(np.vstack(alt).reshape(-1, 9), rt, S):
@@ -1813,6 +1880,7 @@ def workload(run):
             break
         for n_edits in (0, 2):
             scenario(run, tag, spec, run.rng, run.pyrng, n_edits, battery=True)
+        scenario(run, tag + ":nudged", spec, run.rng, run.pyrng, 1, battery=True, forced=("edge_nudge",))
     run.note("battery_seconds", round(run.elapsed(), 1))
     k = 0
     while not run.out_of_time(0.93):
